@@ -74,6 +74,7 @@ type Options struct {
 	KeepTrace    int   // keep at most this many trace events (hash always covers all)
 	WallLimit    time.Duration
 	OnMainReturn func(step int) // called by the controller when it first sees the main task finished
+	StopAtMain   bool           // stop scheduling once the main task has finished (a real process exits there)
 	Invariant    func(step int) string
 }
 
@@ -247,6 +248,9 @@ func Run(t *testing.T, opt Options, body func()) (res Result) {
 				res.MainStep = res.Steps
 				if opt.OnMainReturn != nil {
 					opt.OnMainReturn(res.Steps)
+				}
+				if opt.StopAtMain {
+					break
 				}
 			}
 			if opt.Invariant != nil && res.InvariantFail == "" {
